@@ -124,6 +124,13 @@ def run(rep, tier, seed):
             opts = [(DELTAS[i % len(DELTAS)], LENS[i // len(DELTAS)])] + opts[:1]
         if i in (7, 8):
             opts = [(rnd.choice([3, 300]), 65536 if i == 7 else 65804)] + opts[:1]      # the longest values RFC 7252 can encode (> 64 KiB)
+        if i in (12, 13, 14, 15):
+            # two options of one message whose (delta, length) pairs coincide once the length is cut to 16 bits and the overflow carried into
+            # the delta: (d, L) with L >= 65536 next to (d + 1, L - 65536), in either order
+            x_ = rnd.choice([0, 1, 4, 12, 13])
+            d_ = rnd.choice([0, 1, 12, 300])
+            pair = [(d_ + 1, x_), (d_, 65536 + x_)]
+            opts = pair if i % 2 == 0 else pair[::-1]
         if i in (9, 10, 11):
             opts = [(65804, 1), (65804, 0), (rnd.choice([1, 60000]), 2)]                # option numbers beyond 100000
         payload = None if rnd.random() < 0.7 else b''
